@@ -1,17 +1,17 @@
 #!/bin/bash
 # Re-runs the targeted check for every seeded change with the committed machinery, on N parallel copies of /verif
-# (each with its own harness build), never touching /repo's working tree.  C10*/C19* changes need the real binary
-# of the changed tree and are run afterwards, one at a time, through lib/seedrun.py (which applies the patch to /repo).
+# (each with its own harness build and its own build of the real binary), never touching /repo's working tree.
+# usage: lib/seedall.sh [N workers] [id pattern]
 N=${1:-4}
 cd /verif
-ids=$(ls seeded | grep -v "benign\|README" | grep -v "^C19\|^C10")
+ids=$(ls seeded | grep -v "benign\|README" | grep "${2:-.}")
 i=0; for id in $ids; do echo $id >> /tmp/seedall_$((i % N)).lst; i=$((i+1)); done
 for w in $(seq 0 $((N-1))); do
   ( d=/tmp/vw$w; rm -rf $d; git -C /verif worktree prune; git -C /verif worktree add -q --detach $d HEAD
     for id in $(cat /tmp/seedall_$w.lst); do
       p=$(python3 -c "import json;print(json.load(open('/verif/seeded/$id/meta.json'))['breaks_property'])" 2>/dev/null || echo ${id:0:3})
       extra=""; [ "$id" = "C05_m2" ] && extra="C12"; [ "$id" = "C02b_m2" ] && extra="C11"; [ "$id" = "C13b_m1" ] && extra="C01"
-      VERIF_DIR=$d python3 /verif/lib/wtrun.py /verif/seeded/$id/patch.diff w${w}_$id $p $extra
+      WT_TARGET=/tmp/wt/target_w$w VERIF_DIR=$d python3 /verif/lib/wtrun.py /verif/seeded/$id/patch.diff w${w}_$id $p $extra
     done
     git -C /verif worktree remove --force $d ) > /tmp/seedall_$w.out 2>&1 &
 done
